@@ -144,6 +144,7 @@ func initPlugins() {
 
 type world struct {
 	db   *faultDB
+	plw  *plWrap
 	pl   *pipeline.Service
 	cn   *connector.Service
 	pr   *processor.Service
@@ -152,6 +153,47 @@ type world struct {
 	// ids: op index -> real id (uuid for API-created, "x<i>" otherwise); rev: real id -> index
 	ids map[int]string
 	rev map[string]int
+}
+
+// plWrap is the pipeline service as the provisioning service sees it. When armed with flip it
+// plays an external Start (outside provisioning, not covered by the per-pipeline lock) that
+// lands between ApplyPlanLive's first read of the running status and its re-read: the pipeline
+// Gets of one ApplyPlanLive call are #1 Plan/Export, #2 isRunning, #3 the re-read (only when #2
+// said "not running"); the status is set to Running on entry of #3.
+type plWrap struct {
+	*pipeline.Service
+	w            *world
+	armed, flip  bool
+	n            int
+	firstRunning bool
+}
+
+func (p *plWrap) arm(flip bool) { p.armed, p.flip, p.n, p.firstRunning = true, flip, 0, false }
+func (p *plWrap) disarm()       { p.armed = false }
+
+func runningClass(st pipeline.Status) bool {
+	return st == pipeline.StatusRunning || st == pipeline.StatusRecovering || st == pipeline.StatusDegraded
+}
+
+func (p *plWrap) Get(ctx context.Context, id string) (*pipeline.Instance, error) {
+	if p.armed {
+		p.n++
+		switch p.n {
+		case 2:
+			inst, err := p.Service.Get(ctx, id)
+			p.firstRunning = err == nil && runningClass(inst.GetStatus())
+			return inst, err
+		case 3:
+			if p.flip && !p.firstRunning {
+				// the external Start persists the status: not one of the apply's numbered store operations
+				n, k := p.w.db.n, p.w.db.failAt
+				p.w.db.failAt = 0
+				_ = p.Service.UpdateStatus(ctx, id, pipeline.StatusRunning, "")
+				p.w.db.n, p.w.db.failAt = n, k
+			}
+		}
+	}
+	return p.Service.Get(ctx, id)
 }
 
 type nopLifecycle struct{}
@@ -165,7 +207,8 @@ func newWorld(lc provisioning.LifecycleService) *world {
 	w.cn = connector.NewService(logger, w.db, connector.NewPersister(logger, w.db, time.Hour, 1000000))
 	w.pr = processor.NewService(logger, w.db, procPluginSvc)
 	w.orch = orchestrator.NewOrchestrator(w.db, logger, w.pl, w.cn, w.pr, connPluginSvc, procPluginSvc, nopLifecycle{})
-	w.prov = provisioning.NewService(w.db, logger, w.pl, w.cn, w.pr, connPluginSvc, lc, scratchDir+"/nopipelines")
+	w.plw = &plWrap{Service: w.pl, w: w}
+	w.prov = provisioning.NewService(w.db, logger, w.plw, w.cn, w.pr, connPluginSvc, lc, scratchDir+"/nopipelines")
 	return w
 }
 
